@@ -153,15 +153,17 @@ impl BaseBindingsGenerator for TypeScriptBindingsGenerator {
         // Filter to only the types used by commands and events (including the types
         // reachable through the fields of event payloads)
         let events = analyzer.get_discovered_events();
-        let mut used_structs =
-            self.collector
-                .collect_used_types_with_events(commands, events, discovered_structs);
 
         // A type that is covered by a type mapping is written as its mapping wherever it is
-        // mentioned: a project type of that name gets no declaration of its own
+        // mentioned: a project type of that name gets no declaration of its own, and nothing is
+        // reachable through its fields
+        let mut declarable = discovered_structs.clone();
         if let Some(mappings) = &config.type_mappings {
-            used_structs.retain(|name, _| !mappings.contains_key(name));
+            declarable.retain(|name, _| !mappings.contains_key(name));
         }
+        let used_structs =
+            self.collector
+                .collect_used_types_with_events(commands, events, &declarable);
 
         // Create file writer
         let mut file_writer = FileWriter::new(output_path)?;
